@@ -90,6 +90,10 @@ func (r *nodeReconcile) Reconcile(ctx context.Context, request reconcile.Request
 		}
 	case "ipv6":
 		ipv6 = true
+		if node.Spec.NodeCap.IPv6PerAdapter <= 0 {
+			l.Info("instance is not support ipv6")
+			ipv6 = false
+		}
 	default:
 		return reconcile.Result{}, fmt.Errorf("unsupported ip stack %s", eniConfig.IPStack)
 	}
@@ -160,7 +164,7 @@ func (r *nodeReconcile) Reconcile(ctx context.Context, request reconcile.Request
 
 	node.Spec.Flavor = nil
 
-	secondary := node.Spec.NodeCap.Adapters - 1
+	secondary := max(node.Spec.NodeCap.Adapters-1, 0)
 	if node.Spec.ENISpec.EnableTrunk && secondary > 0 {
 		node.Spec.Flavor = append(node.Spec.Flavor, networkv1beta1.Flavor{
 			NetworkInterfaceType:        networkv1beta1.ENITypeTrunk,
@@ -188,6 +192,10 @@ func (r *nodeReconcile) Reconcile(ctx context.Context, request reconcile.Request
 		MaxPoolSize: eniConfig.MaxPoolSize,
 		MinPoolSize: eniConfig.MinPoolSize,
 	}
+	// same bounds as the daemon's own pool config: 0 <= min <= max <= capacity
+	capacity := max(node.Spec.NodeCap.Adapters-1, 0) * node.Spec.NodeCap.IPv4PerAdapter
+	node.Spec.Pool.MaxPoolSize = min(max(node.Spec.Pool.MaxPoolSize, 0), capacity)
+	node.Spec.Pool.MinPoolSize = min(max(node.Spec.Pool.MinPoolSize, 0), node.Spec.Pool.MaxPoolSize)
 
 	afterStatus, err := runtime.DefaultUnstructuredConverter.ToUnstructured(node.DeepCopy())
 	if err != nil {
